@@ -458,6 +458,45 @@ def h_nonmultiplicative_arrays(eng):
             P(list(A.magnitude) == list(v3) and list(B.magnitude) == list(w3), f"autoconvert:{fname}:{ua},{ub}:operands-untouched")
 
 
+def h_setitem_float(eng):
+    """item assignment on float arrays: the assigned value is converted into the array's units;
+    bare numbers are accepted by dimensionless arrays only (read as plain numbers) -- whatever
+    the values are, NaN among them included"""
+    ureg = regs.float_default()
+    Qy = ureg.Quantity
+    P = eng.prove
+    nan = float("nan")
+    for vals in ([7.0, 8.0], [nan, 8.0], [8.0, nan], [nan, nan]):
+        for kind in ("ndarray", "list"):
+            value = np.array(vals) if kind == "ndarray" else list(vals)
+            q = Qy(np.array([1.0, 2.0, 3.0]), "meter")
+            try:
+                q[0:2] = value
+            except DimensionalityError:
+                P(list(q.magnitude) == [1.0, 2.0, 3.0], f"setitem:meter:bare-{kind}:{vals}:refused-and-untouched")
+            else:
+                eng.fail(f"setitem:meter:bare-{kind}:{vals}:bare-numbers-written-into-a-length-array", stop=False)
+            p = Qy(np.array([1.0, 2.0, 3.0]), "percent")
+            p[0:2] = value
+            want = [v * 100 for v in vals]
+            ok = all((np.isnan(g) and np.isnan(w)) or g == w for g, w in zip(p.magnitude[0:2], want)) and p.magnitude[2] == 3.0
+            P(bool(ok), f"setitem:percent:bare-{kind}:{vals}:read-as-plain-numbers")
+            q2 = Qy(np.array([1.0, 2.0, 3.0]), "meter")
+            q2[0:2] = Qy(np.array(vals), "centimeter")
+            want = [v / 100 for v in vals]
+            ok = all((np.isnan(g) and np.isnan(w)) or abs(g - w) < 1e-15 for g, w in zip(q2.magnitude[0:2], want))
+            P(bool(ok), f"setitem:meter:quantity-{kind}:{vals}:converted")
+    q = Qy(np.array([1.0, 2.0, 3.0]), "meter")
+    q[1] = nan  # a scalar NaN marks a missing value in any array
+    P(np.isnan(q.magnitude[1]) and q.magnitude[0] == 1.0, "setitem:meter:scalar-nan-accepted")
+    try:
+        q[0] = 5.0
+    except DimensionalityError:
+        P(True, "setitem:meter:bare-scalar-refused")
+    else:
+        eng.fail("setitem:meter:bare-scalar-accepted", stop=False)
+
+
 def h_incompatible(eng, name, ua, ub):
     ureg = regs.default(eng)
     arity, f, rule = FUNCS[name]
@@ -558,6 +597,7 @@ def cases(tier, seed):
             out.append(Case("H16.e", f"{name}:{ua}->{ua2}", M, "h_dimless", {"name": name, "ua": ua, "ua2": ua2}, opts=opts, validate=1, weight=4.0))
     out.append(Case("H16.f", "float-routing", M, "h_float_routing", {}, kind="conc"))
     out.append(Case("H16.f", "nonmultiplicative-arrays", M, "h_nonmultiplicative_arrays", {}, kind="conc"))
+    out.append(Case("H16.f", "setitem-float", M, "h_setitem_float", {}, kind="conc"))
     out.append(Case("H16.d", "inplace:meter,inch", M, "h_inplace", {"ua": "meter", "ub": "inch"}, opts=opts, validate=1))
     out.append(Case("H16.d", "inplace:hour,second", M, "h_inplace", {"ua": "hour", "ub": "second"}, opts=opts, validate=1))
     return out
